@@ -278,11 +278,64 @@ func GenSetN(s gen.Src, module string, npkgs int) (*Set, map[string]bool) {
 			vf := file()
 			vf.Defs = append(vf.Defs, svc)
 		}
+		// a file whose import is referenced at exactly one position (each kind of position in isolation:
+		// the generator decides per file whether an import is used)
+		var singles []*File
+		usedPos := map[int]bool{}
+		for k := 0; k < 2 && len(prev) > 0; k++ {
+			if s.Intn(4, "singleuse") == 0 {
+				continue
+			}
+			var single *File
+			ex0 := prev[s.Intn(len(prev), "singleuse-pkg")]
+			if len(ex0.messages) > 0 {
+				alias, ref := "", ex0.pkg.ID
+				if s.Intn(2, "singleuse-alias") == 0 {
+					alias = "y" + ex0.pkg.ID
+					ref = alias
+				}
+				ext := Type{Pkg: ref, Name: ex0.messages[s.Intn(len(ex0.messages), "singleuse-msg")]}
+				single = &File{Name: fmt.Sprintf("f%d.spec", 8+k), Imports: []Import{{Alias: alias, ID: ex0.pkg.ID}}}
+				local := &Def{Kind: DefMessage, Name: name("Msg"), Fields: []Field{{Name: "id", Type: Type{Name: "int64"}, Tag: "1"}}}
+				lt := Type{Name: local.Name}
+				svc := &Def{Kind: DefService, Name: name("Svc")}
+				m := Method{Name: "zsingle"}
+				pos := s.Intn(7, "singleuse-pos")
+				if usedPos[pos] {
+					pos = (pos + 1 + s.Intn(6, "singleuse-pos2")) % 7
+				}
+				usedPos[pos] = true
+				switch pos {
+				case 0:
+					m.ChanOut = &ext
+				case 1:
+					m.ChanIn = &ext
+				case 2:
+					m.ChanIn, m.ChanOut = &lt, &ext
+					m.HasOutput, m.OutputType = true, &lt
+				case 3:
+					m.InputType = &ext
+				case 4:
+					m.HasOutput, m.OutputType = true, &ext
+				case 5:
+					m.InputFields = []Field{{Name: "arg", Type: ext, Tag: "1"}}
+				default:
+					m.HasOutput, m.OutputFields = true, []Field{{Name: "res", Type: Type{List: true, Pkg: ext.Pkg, Name: ext.Name}, Tag: "2"}}
+				}
+				svc.Methods = []Method{m}
+				single.Defs = []*Def{local, svc}
+				ex.messages = append(ex.messages, local.Name)
+				g.Feats["import-used-at-one-position"] = true
+				g.Feats[fmt.Sprintf("single-use-position=%d", pos)] = true
+				singles = append(singles, single)
+			}
+		}
 		for _, f := range files {
 			if len(f.Defs) > 0 || len(f.Options) > 0 {
 				pkg.Files = append(pkg.Files, f)
 			}
 		}
+		pkg.Files = append(pkg.Files, singles...)
 		set.Pkgs = append(set.Pkgs, pkg)
 		prev = append(prev, ex)
 	}
